@@ -55,7 +55,9 @@ RULE = ('ea: every element 1-118 x every tabulated isotope, charge -4..4, radica
         'gm: SMARTS x molecules, cut patterns (ring closures, random label flags), multi-component patterns, scopes, both '
         'automorphism_filter settings; ga: hypervalent hubs, stars (3..10 leaves), cliques K3..K7, K3,3, a wheel and cages x star / '
         'chain / ring queries without element constraints and patterns cut from the targets, rendered matcher with tracked arrays vs the '
-        'guarded model (highest stack pointer, pushes, yields; scratch array all-zero at every yield and at the end). A case is one encoder call / one pair / one search; non-trivial when it constrains something '
+        'guarded model (highest stack pointer, pushes, yields; scratch array all-zero at every yield and at the end); gb: the same pairs with '
+        'corrupted buffers (duplicated bond rows, indices / ranges outside the buffers, non-earlier parents, short scope) — the guards of '
+        'the model vs the IndexError of the rendering. A case is one encoder call / one pair / one search; non-trivial when it constrains something '
         '(not the default atom) resp. the search has at least one candidate root; distinct by canonical wire form.')
 TRUSTED = ['gen_bitlayout translator (AST of isomorphism.py, text of _isomorphism.pyx)', 'gen_periodic / gen_query translators',
            'gen_c09alloc translator (PyMem_Malloc / memset size expressions of _isomorphism.pyx)',
@@ -1263,12 +1265,47 @@ def _tracking(mod):
     return Track, made
 
 
-def real_ga(q, m, flags):
-    """run the rendered `get_mapping` on the real encoders' buffers with tracked arrays ->
-    [per query component: ('ok', max stack pointer, pushes, mappings) | ('oob',) | ('err', Exc)], [hygiene remarks]"""
+def tracked_run(qbuf, sbuf, flags, cap=200000):
+    """one call of the rendered `get_mapping` with tracked arrays -> (result, hygiene remarks);
+    result = ('ok', max stack pointer, pushes, yields) | ('oob',) | ('fault', Exc) | ('shape', n) | ('cap',)"""
     import sys
     from array import array
     mod = sys.modules['chython.algorithms._isomorphism']
+    remarks = []
+    orig = mod.CArray
+    Track, made = _tracking(mod)
+    mod.CArray = Track
+    n = 0
+    res = None
+    try:
+        for _ in mod.get_mapping(qbuf, sbuf, array('I', flags)):
+            n += 1
+            if len(made) == 5 and any(made[4].v):
+                remarks.append('scratch array `closures` not all-zero at a yield')
+            if n >= cap:
+                res = ('cap',)
+                break
+    except IndexError:
+        res = ('oob',)
+    except Exception as e:
+        res = ('fault', exc_name(e))
+    finally:
+        mod.CArray = orig
+    if len(made) != 5:
+        return res if res is not None and res[0] in ('oob', 'fault') else ('shape', len(made)), remarks
+    path, s_index, s_depth, matched, closures = made
+    if res is None:
+        res = ('ok', s_index.hi + 1, s_index.writes, n)
+        if any(closures.v):
+            remarks.append('scratch array `closures` not all-zero when the search ended')
+        if s_depth.hi != s_index.hi or s_depth.writes != s_index.writes:
+            remarks.append('stack_index / stack_depth written differently')
+    return res, remarks
+
+
+def real_ga(q, m, flags):
+    """run the rendered `get_mapping` on the real encoders' buffers with tracked arrays ->
+    [per query component: ('ok', max stack pointer, pushes, mappings) | ('oob',) | ('err', Exc)], [hygiene remarks]"""
     fresh(q)
     try:
         qbufs = q._cython_compiled_query
@@ -1277,36 +1314,116 @@ def real_ga(q, m, flags):
         fresh(q)
         return [('err', exc_name(e))], []
     out, remarks = [], []
-    orig = mod.CArray
     for qbuf in qbufs:
-        Track, made = _tracking(mod)
-        mod.CArray = Track
-        n = 0
-        try:
-            for _ in mod.get_mapping(qbuf, sbuf, array('I', flags)):
-                n += 1
-                if len(made) == 5 and any(made[4].v):
-                    remarks.append('scratch array `closures` not all-zero at a yield')
-            res = None
-        except IndexError:
-            res = ('oob',)
-        except Exception as e:
-            res = ('err', exc_name(e))
-        finally:
-            mod.CArray = orig
-        if len(made) != 5:
-            out.append(('shape', len(made)))
-            continue
-        path, s_index, s_depth, matched, closures = made
-        if res is None:
-            res = ('ok', s_index.hi + 1, s_index.writes, n)
-            if any(closures.v):
-                remarks.append('scratch array `closures` not all-zero when the search ended')
-            if s_depth.hi != s_index.hi or s_depth.writes != s_index.writes:
-                remarks.append('stack_index / stack_depth written differently')
+        res, rem = tracked_run(qbuf, sbuf, flags)
+        if res[0] == 'fault':
+            res = ('err', res[1])
         out.append(res)
+        remarks += rem
     fresh(q)
     return out, remarks
+
+
+def pack_mol(atoms, bonds):
+    return HDR.pack(len(atoms)) + b''.join(MATOM.pack(*a) for a in atoms) + b''.join(BOND.pack(*b) for b in bonds)
+
+
+def pack_query(atoms, bonds):
+    return HDR.pack(len(atoms)) + b''.join(QATOM.pack(*a) for a in atoms) + b''.join(BOND.pack(*b) for b in bonds)
+
+
+CORRUPTIONS = ['none', 'dup-row', 'dup-hub', 'dup-hub', 'bad-index', 'long-to', 'q-back', 'q-closure-range', 'q-closure-index', 'short-scope', 'dup-row+bad-index']
+
+
+def corrupt(rng, kind, qa, qb, ma, mb, flags):
+    """buffers no encoder produces: duplicated bond rows (multi-edges: more candidates per batch than atoms), indices outside
+    the buffers, ranges beyond the bond arrays, parents / closure partners that are not earlier steps, a short scope array"""
+    qa, qb, ma, mb, flags = [list(x) for x in qa], [list(x) for x in qb], [list(x) for x in ma], [list(x) for x in mb], list(flags)
+    for k in kind.split('+'):
+        if k == 'dup-row':
+            rows = [i for i, a in enumerate(ma) if a[5] > a[4]]
+            if rows:
+                i = rng.choice(rows)
+                row = mb[ma[i][4]:ma[i][5]] * rng.randint(2, 6)
+                ma[i][4], ma[i][5] = len(mb), len(mb) + len(row)
+                mb += [list(b) for b in row]
+        elif k == 'dup-hub':
+            rows = [i for i, a in enumerate(ma) if a[5] > a[4]]
+            if rows:
+                i = max(rows, key=lambda r: ma[r][5] - ma[r][4])
+                row = mb[ma[i][4]:ma[i][5]]
+                row = row * ((len(qa) * len(ma)) // len(row) + rng.randint(0, 2))  # about as many entries as the stack holds
+                ma[i][4], ma[i][5] = len(mb), len(mb) + len(row)
+                mb += [list(b) for b in row]
+        elif k == 'bad-index' and mb:
+            mb[rng.randrange(len(mb))][1] = len(ma) + rng.randint(0, 3)
+        elif k == 'long-to' and ma:
+            ma[rng.randrange(len(ma))][5] = len(mb) + rng.randint(1, 5)
+        elif k == 'q-back' and len(qa) > 1:
+            j = rng.randrange(1, len(qa))
+            qa[j][4] = j + rng.randint(0, 2)
+        elif k == 'q-closure-range' and qa:
+            j = rng.randrange(len(qa))
+            qa[j][5] = max(1, qa[j][5])
+            qa[j][7] = len(qb) + rng.randint(1, 3)
+        elif k == 'q-closure-index' and qb:
+            qb[rng.randrange(len(qb))][1] = len(qa) + rng.randint(0, 2)
+        elif k == 'short-scope' and flags:
+            flags = flags[:-1]
+    return qa, qb, ma, mb, flags
+
+
+def stream_gb(ctx, pairs):
+    """the guards themselves: the guarded model vs the rendered `.pyx` (which raises on every access outside an array) on buffers
+    no encoder produces. The rendering reads one contiguous buffer (an index past the atoms reads bond bytes) where the model
+    stops, so the comparison is one-sided where it has to be: model ok => rendering ok with the same stack pointer / pushes /
+    yields; rendering raises => model stops with a fault"""
+    rng = ctx.rng
+    lines, reals, kinds = [], [], []
+    for name, q, m, auto, scope in pairs:
+        if has_stereo(q):
+            continue
+        fresh(q)
+        try:
+            qbufs = q._cython_compiled_query
+            sbuf = m._cython_compiled_structure
+        except Exception:
+            fresh(q)
+            continue
+        fresh(q)
+        ma, mb = decode_mol(sbuf)
+        qa, qb = decode_query(qbufs[0])
+        kind = rng.choice(CORRUPTIONS)
+        qa2, qb2, ma2, mb2, flags = corrupt(rng, kind, qa, qb, ma, mb, [1] * len(ma))
+        got, remarks = tracked_run(pack_query(qa2, qb2), pack_mol(ma2, mb2), flags, cap=20000)
+        if got[0] in ('cap', 'shape'):
+            ctx.dist('gb:skipped:' + got[0])
+            continue
+        ints = [0] + L(flags) + [len(qa2)] + [x for a in qa2 for x in a] + [len(qb2)] + [x for b in qb2 for x in b] \
+            + [len(ma2)] + [x for a in ma2 for x in a] + [len(mb2)] + [x for b in mb2 for x in b]
+        lines.append(line('gb', ints))
+        reals.append((got, name, kind))
+    resp = core.run_driver('C09', lines) if ctx.build_ok else []
+    bad = 0
+    for ln, (got, name, kind), rs in zip(lines, reals, resp):
+        model = parse_ga(rs)[0]
+        ws = rs.split()
+        mfault = ws[0] in ('oob', 'uninit', 'range') if ws else False
+        ctx.count(('gb', ln), nontrivial=kind != 'none')
+        if model[0] == 'ok':
+            agree = got == model
+        elif mfault:
+            agree = True  # the rendering may read on through the contiguous buffer where the model stops
+        else:
+            agree = False  # fuel / parse error
+        if got[0] in ('oob', 'fault') and not mfault:
+            agree = False
+        ctx.dist(f'gb:{kind}:real-{got[0]}/model-{ws[0] if ws else "?"}')
+        if not agree:
+            bad += 1
+            ctx.cov['disagreements_checked'] += 1
+            if bad <= 3:
+                ctx.broke('correspondence', 'gb:guards', f'{name} [{kind}]: rendered .pyx {got} model {rs[:120]}')
 
 
 def parse_ga(resp):
@@ -1694,6 +1811,7 @@ def correspond(ctx):
     stream_gm(ctx, itertools.chain(keep(pairs), ctx.rng.sample(spairs, min(len(spairs), 400)) if ctx.quick else spairs))
     cp = [x for x in cp if x[2].rings_count >= 2 and x[4] is None and len(x[2]) <= 24]
     stream_ga(ctx, spairs + (ctx.rng.sample(cp, min(len(cp), 300)) if ctx.quick else cp))
+    stream_gb(ctx, ctx.rng.sample(spairs, min(len(spairs), 400 if ctx.quick else 3000)) + ctx.rng.sample(cp, min(len(cp), 200 if ctx.quick else 2000)))
     stream_hist(ctx)
     ctx.exhaustive = False
     if _state.get('gen_query_error'):
